@@ -6,7 +6,7 @@
    as five hypotheses (T_ws, T_num, T_lit, T_esc, and the literals' safety rows are not needed
    here) which are discharged for the regenerated tables at the end of the file. *)
 From Coq Require Import Arith NArith List Lia Bool.
-From LCP Require Import Base.CheckedMem Util.Json Util.JsonSpec.
+From LCP Require Import Base.CheckedMem Gen.Repo_json Util.Json Util.JsonSpec Util.JsonRepo.
 Import ListNotations.
 Local Open Scope res_scope.
 
@@ -52,6 +52,9 @@ Lemma at_eq_cons b p c l : at_ b p (c :: l) -> (p =? length b) = false.
 Proof. intros H. apply at_len in H. cbn in H. apply Nat.eqb_neq. lia. Qed.
 Lemma at_eq_nil b p : at_ b p [] -> (p =? length b) = true.
 Proof. intros H. apply at_len in H. cbn in H. apply Nat.eqb_eq. lia. Qed.
+
+Lemma at_eq_string b p n x : at_ b p (render_string n ++ x) -> (p =? length b) = false.
+Proof. intros H. unfold render_string in H. cbn [app] in H. exact (at_eq_cons _ _ _ _ H). Qed.
 
 (* step over one byte: *buf++ *)
 Ltac step_rd H :=
@@ -402,10 +405,401 @@ Section Correct.
         pose proof (at_cons _ _ _ _ Hat6) as Hat7.
         rewrite (skip_ws_at wb' b _ _ Hm Hat7) by exact eq_refl. cbn [bind].
         pose proof (at_app _ _ _ _ Hat7) as Hat8.
-        assert (Hat8' := Hat8). unfold render_string in Hat8'. cbn [app] in Hat8'.
-        rewrite (at_eq_cons _ _ _ _ Hat8'). cbn [andb].
+        rewrite (at_eq_string _ _ _ _ Hat8). cbn [andb].
         pose proof (at_len _ _ _ Hat6) as HL. cbn [length] in HL.
-        rewrite (IH g _ n' wn' wv' v' wa' l Hm3 Hm2 Hm1 Hm0 Hm4 Hr Hat8) by lia. f_equal. lia.
+        rewrite (IH g _ n' wn' wv' v' wa' l Hm4 Hm3 Hm2 Hm1 Hm0 Hr Hat8) by lia. f_equal. lia.
+    Qed.
+
+    Lemma skip_object_at w ms g p l :
+      is_wsl w = true -> forallb wf_member ms = true ->
+      at_ b p (render (JObj w ms) ++ l) -> p0 <= p -> g > length b - (p + 1) ->
+      skip_object wsbytes true true b sv g p = Ok (p + length (render (JObj w ms))).
+    Proof.
+      intros Hw Hms Hat Hp Hg. unfold skip_object. cbn [render] in *.
+      destruct ms as [|[wb n wn wv v wa] r].
+      - cbn [map join_comma app] in *. rewrite <- app_assoc in Hat. cbn [app] in Hat.
+        step_fwd1 Hat. pose proof (at_cons _ _ _ _ Hat) as Hat1.
+        rewrite (skip_ws_at w b _ _ Hw Hat1) by exact eq_refl. cbn [bind].
+        pose proof (at_app _ _ _ _ Hat1) as Hat2.
+        rewrite (at_eq_cons _ _ _ _ Hat2). step_rd Hat2. change (125 =? 125)%N with true. cbn iota.
+        rewrite (at_fwd _ _ 1 _ Hat2) by (cbn [length]; lia). f_equal.
+        cbn [length]. rewrite app_length. cbn [length]. lia.
+      - cbn [forallb wf_member] in Hms. apply andb_true_iff in Hms. destruct Hms as [Hm Hr].
+        repeat (apply andb_true_iff in Hm; let H := fresh "Hm" in destruct Hm as [Hm H]).
+        rewrite join_comma_members in *. cbn [render_member] in *.
+        cbn [app] in Hat. rewrite <- !app_assoc in Hat. cbn [app] in Hat.
+        rewrite <- !app_assoc in Hat. cbn [app] in Hat.
+        step_fwd1 Hat. pose proof (at_cons _ _ _ _ Hat) as Hat1.
+        rewrite (app_assoc w wb) in Hat1.
+        assert (Hww : is_wsl (w ++ wb) = true) by (rewrite is_wsl_app, Hw, Hm; reflexivity).
+        rewrite (skip_ws_at (w ++ wb) b _ _ Hww Hat1) by exact eq_refl. cbn [bind].
+        pose proof (at_app _ _ _ _ Hat1) as Hat2.
+        rewrite (at_eq_string _ _ _ _ Hat2).
+        assert (Hat2' := Hat2). unfold render_string at 1 in Hat2'. cbn [app] in Hat2'.
+        step_rd Hat2'. change (34 =? 125)%N with false. cbn iota.
+        rewrite app_length in *.
+        rewrite (obj_loop_at r g _ n wn wv v wa l Hm4 Hm3 Hm2 Hm1 Hm0 Hr Hat2) by lia. f_equal.
+        cbn [length]. repeat (rewrite app_length; cbn [length]). lia.
     Qed.
   End Cont.
+
+  (* ---- skip_value lands exactly behind a rendered value ---- *)
+  Local Notation SVF := (skip_value_f numchars wsbytes literals true true).
+
+  Lemma skip_value_f_at fuel : forall b p v l,
+    wf v = true -> value_end_ok l = true -> at_ b p (render v ++ l) -> fuel > length b - p ->
+    SVF b fuel p = Ok (p + length (render v)).
+  Proof.
+    induction fuel as [|f IH]; intros b p v l Hv Hl Hat Hf; [lia|].
+    cbn [skip_value_f].
+    destruct (render_head v Hv) as (c & rv & Erv & _ & _).
+    assert (Hat' := Hat). rewrite Erv in Hat'. cbn [app] in Hat'.
+    pose proof (at_len _ _ _ Hat') as HL. cbn [length] in HL.
+    rewrite (at_eq_cons _ _ _ _ Hat'). step_rd Hat'. clear Hat'.
+    assert (Hsv : forall q v' l', wf v' = true -> value_end_ok l' = true ->
+              at_ b q (render v' ++ l') -> p < q -> SVF b f q = Ok (q + length (render v'))).
+    { intros q v' l' Hv' Hl' Hat' Hq. apply (IH b q v' l' Hv' Hl' Hat'). lia. }
+    destruct v as [k|t|s|w es|w ms].
+    - assert (Ec : ((c =? 102)%N || (c =? 110)%N || (c =? 116)%N) = true).
+      { destruct k; cbn in Erv; inversion Erv; reflexivity. }
+      rewrite Ec. exact (T_lit k b p l Hat).
+    - cbn [render] in *. subst t. cbn [wf negb andb forallb] in Hv.
+      assert (Hd := Hv). apply andb_true_iff in Hv. destruct Hv as [Hc _].
+      destruct (num_byte_facts c Hc) as (_ & _ & _ & E1 & E2 & E3 & E4).
+      rewrite E1, E2, E3, E4, T_num, Hc. cbn [orb].
+      exact (skip_number_at (c :: rv) b p l Hd Hl Hat).
+    - cbn [render] in Erv. unfold render_string in Erv. cbn [app] in Erv. inversion Erv; subst c.
+      change ((34 =? 102)%N || (34 =? 110)%N || (34 =? 116)%N) with false.
+      change (34 =? 34)%N with true. cbn iota.
+      exact (skip_string_at s b p l Hv Hat).
+    - cbn [render] in Erv. inversion Erv; subst c.
+      change ((91 =? 102)%N || (91 =? 110)%N || (91 =? 116)%N) with false.
+      change (91 =? 34)%N with false. change (91 =? 91)%N with true. cbn iota.
+      cbn [wf] in Hv. apply andb_true_iff in Hv. destruct Hv as [Hw Hes].
+      apply (skip_array_at b (SVF b f) p Hsv w es f p l Hw Hes Hat); lia.
+    - cbn [render] in Erv. inversion Erv; subst c.
+      change ((123 =? 102)%N || (123 =? 110)%N || (123 =? 116)%N) with false.
+      change (123 =? 34)%N with false. change (123 =? 91)%N with false.
+      change (123 =? 123)%N with true. cbn iota.
+      cbn [wf] in Hv. apply andb_true_iff in Hv. destruct Hv as [Hw Hms].
+      apply (skip_object_at b (SVF b f) p Hsv w ms f p l Hw Hms Hat); lia.
+  Qed.
+
+  Lemma skip_value_at b p v l :
+    wf v = true -> value_end_ok l = true -> at_ b p (render v ++ l) ->
+    skip_value numchars wsbytes literals true true b p = Ok (p + length (render v)).
+  Proof.
+    intros Hv Hl Hat. unfold skip_value. apply (skip_value_f_at _ b p v l Hv Hl Hat). lia.
+  Qed.
+
+  (* ---- match_str ---- *)
+  (* what the loop of match_str computes over the characters of a name; ks = rest of the key *)
+  Fixpoint mspec (s : jstring) (ks : list N) (found : bool) : bool :=
+    match s with
+    | [] => match ks with [] => found | _ :: _ => false end
+    | it :: r =>
+      let chf := match it with
+                 | Raw c => (c, found)
+                 | Esc e => (match esc_val e with Some v => v | None => 0%N end, found)
+                 | Uni _ _ _ _ => (92%N, false)
+                 end in
+      let s0 := match ks with [] => 0%N | x :: _ => x end in
+      mspec r (tl ks) (if negb (fst chf =? s0)%N then false else snd chf)
+    end.
+
+  Lemma key_rd kb k ks : no_nul ks -> at_ kb k (ks ++ [0%N]) ->
+    let s0 := match ks with [] => 0%N | x :: _ => x end in
+    rd kb k = Ok s0 /\
+    at_ kb (if negb (s0 =? 0)%N then S k else k) (tl ks ++ [0%N]).
+  Proof.
+    intros Hn Hat. destruct ks as [|x ks]; cbn [app tl] in *.
+    - split; [exact (at_rd _ _ _ _ Hat)|]. exact Hat.
+    - split; [exact (at_rd _ _ _ _ Hat)|]. inversion Hn as [|? ? Hx _]; subst.
+      apply N.eqb_neq in Hx. rewrite Hx. cbn [negb]. rewrite <- Nat.add_1_r.
+      exact (at_cons _ _ _ _ Hat).
+  Qed.
+
+  Lemma no_nul_tl ks : no_nul ks -> no_nul (tl ks).
+  Proof. intros H. destruct ks; [exact H|]. inversion H; assumption. Qed.
+
+  Lemma match_loop_at s : forall fuel b p l kb k ks found,
+    wf_string s = true -> no_nul ks ->
+    at_ b p (render_items s ++ 34%N :: l) -> at_ kb k (ks ++ [0%N]) ->
+    fuel > length (render_items s) ->
+    match_loop escapes b kb fuel p k found =
+    Ok (p + length (render_items s) + 1, mspec s ks found).
+  Proof.
+    induction s as [|i s IH]; intros fuel b p l kb k ks found Hs Hn Hat Hk Hf.
+    - destruct fuel as [|f]; [lia|]. cbn [render_items flat_map app length match_loop mspec] in *.
+      rewrite (at_eq_cons _ _ _ _ Hat). step_rd Hat. step_fwd1 Hat.
+      change (34 =? 34)%N with true. cbn iota.
+      destruct (key_rd kb k ks Hn Hk) as [E _]. rewrite E. cbn [bind].
+      destruct ks as [|x ks].
+      + cbn. f_equal. f_equal. lia.
+      + inversion Hn as [|? ? Hx _]; subst. apply N.eqb_neq in Hx. rewrite Hx. cbn. f_equal. f_equal. lia.
+    - destruct fuel as [|f]; [lia|].
+      cbn [wf_string forallb] in Hs. apply andb_true_iff in Hs. destruct Hs as [Hi Hs].
+      change (render_items (i :: s)) with (render_item i ++ render_items s) in *.
+      rewrite app_length in *. rewrite <- app_assoc in Hat.
+      destruct (key_rd kb k ks Hn Hk) as [E Hk'].
+      cbn [match_loop mspec]. destruct i as [c|e|h1 h2 h3 h4]; cbn [render_item app length] in *.
+      + cbn [wf_item] in Hi. apply andb_true_iff in Hi. destruct Hi as [Hi H92].
+        apply andb_true_iff in Hi. destruct Hi as [_ H34]. apply negb_true_iff in H34, H92.
+        rewrite (at_eq_cons _ _ _ _ Hat). step_rd Hat. step_fwd1 Hat. rewrite H34, H92.
+        cbn [bind]. rewrite E. cbn [bind fst snd].
+        rewrite (IH f b (p + 1) l kb _ (tl ks) _ Hs (no_nul_tl _ Hn) (at_cons _ _ _ _ Hat) Hk') by lia.
+        f_equal. f_equal. lia.
+      + cbn [wf_item] in Hi. destruct (esc_val e) as [v|] eqn:Ev; [|discriminate].
+        rewrite (at_eq_cons _ _ _ _ Hat). step_rd Hat. step_fwd1 Hat.
+        change (92 =? 34)%N with false. change (92 =? 92)%N with true. cbn iota.
+        pose proof (at_cons _ _ _ _ Hat) as Hat1.
+        rewrite (at_eq_cons _ _ _ _ Hat1). step_rd Hat1. step_fwd1 Hat1.
+        rewrite T_esc, Ev. cbn [bind]. rewrite E. cbn [bind fst snd].
+        rewrite (IH f b (p + 1 + 1) l kb _ (tl ks) _ Hs (no_nul_tl _ Hn) (at_cons _ _ _ _ Hat1) Hk') by lia.
+        f_equal. f_equal. lia.
+      + rewrite (at_eq_cons _ _ _ _ Hat). step_rd Hat. step_fwd1 Hat.
+        change (92 =? 34)%N with false. change (92 =? 92)%N with true. cbn iota.
+        pose proof (at_cons _ _ _ _ Hat) as Hat1.
+        rewrite (at_eq_cons _ _ _ _ Hat1). step_rd Hat1. step_fwd1 Hat1.
+        rewrite T_esc. change (esc_val 117) with (@None N). change (117 =? 117)%N with true. cbn iota.
+        pose proof (at_cons _ _ _ _ Hat1) as Hat2.
+        assert (E4 : (length b - (p + 1 + 1) <? 4) = false).
+        { apply at_len in Hat2. cbn [length] in Hat2. apply Nat.ltb_ge. lia. }
+        rewrite E4. rewrite (at_fwd _ _ 4 _ Hat2) by (cbn [length]; lia). cbn [bind].
+        rewrite E. cbn [bind fst snd].
+        pose proof (at_app b (p + 1 + 1) [h1; h2; h3; h4] _ Hat2) as Hat3. cbn [length] in Hat3.
+        rewrite (IH f b (p + 1 + 1 + 4) l kb _ (tl ks) _ Hs (no_nul_tl _ Hn) Hat3 Hk') by lia.
+        f_equal. f_equal. lia.
+  Qed.
+
+  Lemma mspec_false s : forall ks, mspec s ks false = false.
+  Proof.
+    induction s as [|i s IH]; intros ks; cbn [mspec]; [destruct ks; reflexivity|].
+    destruct i; cbn [fst snd]; destruct (negb _); apply IH.
+  Qed.
+
+  Lemma mspec_name_is s : forall ks, wf_string s = true -> no_nul ks ->
+    mspec s ks true = name_is s ks.
+  Proof.
+    unfold name_is. induction s as [|i s IH]; intros ks Hs Hn.
+    - cbn. destruct ks; reflexivity.
+    - cbn [wf_string forallb] in Hs. apply andb_true_iff in Hs. destruct Hs as [Hi Hs].
+      cbn [mspec decode_name].
+      assert (Hgen : forall c, c <> 0%N ->
+        mspec s (tl ks) (if negb (c =? match ks with [] => 0 | x :: _ => x end)%N then false else true) =
+        match option_map (cons c) (decode_name s) with Some n => bytes_eqb n ks | None => false end).
+      { intros c Hc. destruct ks as [|x ks]; cbn [tl].
+        - apply N.eqb_neq in Hc. rewrite Hc. cbn [negb]. rewrite mspec_false.
+          destruct (decode_name s); reflexivity.
+        - inversion Hn as [|? ? _ Hn']; subst. destruct (c =? x)%N eqn:Ecx; cbn [negb].
+          + rewrite (IH ks Hs Hn'). destruct (decode_name s); cbn [option_map bytes_eqb]; [rewrite Ecx|]; reflexivity.
+          + rewrite mspec_false. destruct (decode_name s); cbn [option_map bytes_eqb]; [rewrite Ecx|]; reflexivity. }
+      destruct i as [c|e|h1 h2 h3 h4]; cbn [fst snd].
+      + cbn [wf_item] in Hi. apply andb_true_iff in Hi. destruct Hi as [Hi _].
+        apply andb_true_iff in Hi. destruct Hi as [H0 _]. apply negb_true_iff, N.eqb_neq in H0.
+        apply Hgen. exact H0.
+      + cbn [wf_item] in Hi. destruct (esc_val e) as [v|] eqn:Ev; [|discriminate].
+        apply Hgen. exact (esc_val_nonzero e v Ev).
+      + destruct (negb _); apply mspec_false.
+  Qed.
+
+  Lemma render_string_app n x : render_string n ++ x = 34%N :: render_items n ++ 34%N :: x.
+  Proof. unfold render_string. cbn [app]. rewrite <- app_assoc. reflexivity. Qed.
+
+  (* ---- json_find ---- *)
+  Local Notation FL := (find_loop numchars wsbytes literals escapes true true).
+
+  Lemma find_loop_at ms : forall fuel b p wb n wn wv v wa l key,
+    is_wsl wb = true -> wf_string n = true -> is_wsl wn = true -> is_wsl wv = true ->
+    wf v = true -> is_wsl wa = true -> forallb wf_member ms = true -> no_nul key ->
+    at_ b p (wb ++ render_string n ++ wn ++ 58%N :: wv ++ render v ++ wa ++ tail_members ms ++ 125%N :: l) ->
+    fuel > length b - p ->
+    FL b (cstr key) fuel p =
+    Ok (match find_members p (Member wb n wn wv v wa :: ms) key with Some o => o | None => length b end).
+  Proof.
+    induction ms as [|[wb' n' wn' wv' v' wa'] r IH];
+      intros fuel b p wb n wn wv v wa l key Hwb Hn Hwn Hwv Hv Hwa Hms Hk Hat Hf.
+    - destruct fuel as [|f]; [lia|]. cbn [find_loop]. cbn [tail_members flat_map app] in Hat.
+      unfold scan at 1. rewrite (skip_ws_at wb b _ _ Hwb Hat) by exact eq_refl. cbn [bind].
+      pose proof (at_app _ _ _ _ Hat) as Hat1. rewrite (at_eq_string _ _ _ _ Hat1).
+      rewrite render_string_app in Hat1. step_rd Hat1. step_fwd1 Hat1.
+      change (negb (34 =? 34)%N) with false. cbn iota. cbn [bind].
+      pose proof (at_cons _ _ _ _ Hat1) as Hat2. unfold match_str.
+      rewrite (match_loop_at n _ b _ _ (cstr key) 0 key true Hn Hk Hat2 (at_zero _))
+        by (apply at_len in Hat2; rewrite app_length in Hat2; lia).
+      cbn [bind fst snd]. pose proof (at_app _ _ _ _ Hat2) as Hat3. pose proof (at_cons _ _ _ _ Hat3) as Hat4.
+      unfold scan at 1. rewrite (skip_ws_at wn b _ _ Hwn Hat4) by exact eq_refl. cbn [bind].
+      pose proof (at_app _ _ _ _ Hat4) as Hat5.
+      rewrite (at_eq_cons _ _ _ _ Hat5). step_rd Hat5. step_fwd1 Hat5.
+      change (negb (58 =? 58)%N) with false. cbn iota. cbn [bind].
+      pose proof (at_cons _ _ _ _ Hat5) as Hat6.
+      rewrite (skip_ws_at wv b _ _ Hwv Hat6) by (apply head_nows_value; assumption). cbn [bind].
+      pose proof (at_app _ _ _ _ Hat6) as Hat7.
+      rewrite (mspec_name_is n key Hn Hk). cbn [find_members]. rewrite render_string_length.
+      destruct (name_is n key).
+      { f_equal. lia. }
+      rewrite (skip_value_at b _ v _ Hv (value_end_sep wa 125 l Hwa (or_intror (or_intror eq_refl))) Hat7).
+      cbn [bind]. pose proof (at_app _ _ _ _ Hat7) as Hat8.
+      unfold scan. rewrite (skip_ws_at wa b _ _ Hwa Hat8) by exact eq_refl. cbn [bind].
+      pose proof (at_app _ _ _ _ Hat8) as Hat9.
+      rewrite (at_eq_cons _ _ _ _ Hat9). step_rd Hat9. step_fwd1 Hat9.
+      change (negb (125 =? 44)%N) with true. cbn iota. reflexivity.
+    - destruct fuel as [|f]; [lia|]. cbn [find_loop].
+      cbn [forallb wf_member] in Hms. apply andb_true_iff in Hms. destruct Hms as [Hm Hr].
+      repeat (apply andb_true_iff in Hm; let H := fresh "Hm" in destruct Hm as [Hm H]).
+      rewrite tail_members_cons in Hat.
+      unfold scan at 1. rewrite (skip_ws_at wb b _ _ Hwb Hat) by exact eq_refl. cbn [bind].
+      pose proof (at_app _ _ _ _ Hat) as Hat1. rewrite (at_eq_string _ _ _ _ Hat1).
+      rewrite render_string_app in Hat1. step_rd Hat1. step_fwd1 Hat1.
+      change (negb (34 =? 34)%N) with false. cbn iota. cbn [bind].
+      pose proof (at_cons _ _ _ _ Hat1) as Hat2. unfold match_str.
+      rewrite (match_loop_at n _ b _ _ (cstr key) 0 key true Hn Hk Hat2 (at_zero _))
+        by (apply at_len in Hat2; rewrite app_length in Hat2; lia).
+      cbn [bind fst snd]. pose proof (at_app _ _ _ _ Hat2) as Hat3. pose proof (at_cons _ _ _ _ Hat3) as Hat4.
+      unfold scan at 1. rewrite (skip_ws_at wn b _ _ Hwn Hat4) by exact eq_refl. cbn [bind].
+      pose proof (at_app _ _ _ _ Hat4) as Hat5.
+      rewrite (at_eq_cons _ _ _ _ Hat5). step_rd Hat5. step_fwd1 Hat5.
+      change (negb (58 =? 58)%N) with false. cbn iota. cbn [bind].
+      pose proof (at_cons _ _ _ _ Hat5) as Hat6.
+      rewrite (skip_ws_at wv b _ _ Hwv Hat6) by (apply head_nows_value; assumption). cbn [bind].
+      pose proof (at_app _ _ _ _ Hat6) as Hat7.
+      rewrite (mspec_name_is n key Hn Hk).
+      remember (Member wb' n' wn' wv' v' wa' :: r) as ms' eqn:Ems.
+      cbn [find_members]. rewrite render_string_length.
+      destruct (name_is n key).
+      { f_equal. lia. }
+      subst ms'.
+      rewrite (skip_value_at b _ v _ Hv (value_end_sep wa 44 _ Hwa (or_introl eq_refl)) Hat7).
+      cbn [bind]. pose proof (at_app _ _ _ _ Hat7) as Hat8.
+      unfold scan. rewrite (skip_ws_at wa b _ _ Hwa Hat8) by exact eq_refl. cbn [bind].
+      pose proof (at_app _ _ _ _ Hat8) as Hat9.
+      rewrite (at_eq_cons _ _ _ _ Hat9). step_rd Hat9. step_fwd1 Hat9.
+      change (negb (44 =? 44)%N) with false. cbn iota.
+      pose proof (at_cons _ _ _ _ Hat9) as Hat10.
+      pose proof (at_len _ _ _ Hat9) as HL. cbn [length] in HL.
+      cbn [bind]. rewrite (IH f b _ wb' n' wn' wv' v' wa' l key Hm Hm4 Hm3 Hm2 Hm1 Hm0 Hr Hk Hat10) by lia.
+      match goal with |- Ok (match find_members ?A _ _ with _ => _ end) = Ok (match find_members ?B _ _ with _ => _ end) =>
+        replace B with A by lia end.
+      reflexivity.
+  Qed.
+
+  Theorem json_find_at lead w ms trail key :
+    is_wsl lead = true -> wf (JObj w ms) = true -> no_nul key ->
+    json_find_m numchars wsbytes literals escapes true true
+                (lead ++ render (JObj w ms) ++ trail) (cstr key)
+    = Ok (find_spec lead (JObj w ms) trail key).
+  Proof.
+    intros Hlead Hv Hk. cbn [wf] in Hv. apply andb_true_iff in Hv. destruct Hv as [Hw Hms].
+    unfold json_find_m, find_spec.
+    set (b := lead ++ render (JObj w ms) ++ trail).
+    assert (Hat : at_ b 0 (lead ++ render (JObj w ms) ++ trail)) by apply at_zero.
+    assert (HL : length b = length lead + length (render (JObj w ms)) + length trail).
+    { subst b. rewrite !app_length. lia. }
+    rewrite <- HL. clearbody b.
+    cbn [render] in Hat. cbn [app] in Hat. rewrite <- !app_assoc in Hat. cbn [app] in Hat.
+    unfold scan. rewrite (skip_ws_at lead b _ _ Hlead Hat) by exact eq_refl. cbn [bind].
+    pose proof (at_app _ _ _ _ Hat) as Hat1.
+    rewrite (at_eq_cons _ _ _ _ Hat1). step_rd Hat1. step_fwd1 Hat1.
+    change (negb (123 =? 123)%N) with false. cbn iota. cbn [bind].
+    pose proof (at_cons _ _ _ _ Hat1) as Hat2. cbn [Nat.add] in *.
+    destruct ms as [|[wb n wn wv v wa] r].
+    - cbn [map join_comma app find_members] in *. cbn [find_loop]. unfold scan.
+      rewrite (skip_ws_at w b _ _ Hw Hat2) by exact eq_refl. cbn [bind].
+      pose proof (at_app _ _ _ _ Hat2) as Hat3.
+      rewrite (at_eq_cons _ _ _ _ Hat3). step_rd Hat3. step_fwd1 Hat3.
+      change (negb (125 =? 34)%N) with true. cbn iota. reflexivity.
+    - cbn [forallb wf_member] in Hms. apply andb_true_iff in Hms. destruct Hms as [Hm Hr].
+      repeat (apply andb_true_iff in Hm; let H := fresh "Hm" in destruct Hm as [Hm H]).
+      rewrite join_comma_members in Hat2. cbn [render_member] in Hat2.
+      rewrite <- !app_assoc in Hat2. cbn [app] in Hat2. rewrite <- !app_assoc in Hat2.
+      rewrite (app_assoc w wb) in Hat2.
+      assert (Hww : is_wsl (w ++ wb) = true) by (rewrite is_wsl_app, Hw, Hm; reflexivity).
+      rewrite (find_loop_at r _ b _ (w ++ wb) n wn wv v wa trail key Hww Hm4 Hm3 Hm2 Hm1 Hm0 Hr Hk Hat2) by lia.
+      cbn [find_members]. rewrite app_length.
+      rewrite !Nat.add_assoc. reflexivity.
+  Qed.
 End Correct.
+
+(* ================= the tables regenerated from util/json.c satisfy T_ws .. T_esc ================= *)
+
+Lemma repo_T_ws c : is_ws json_wsbytes c = ws_byte c.
+Proof.
+  unfold is_ws, json_wsbytes, ws_byte. cbn [existsb].
+  destruct (c =? 9)%N, (c =? 10)%N, (c =? 13)%N, (c =? 32)%N; reflexivity.
+Qed.
+
+Lemma repo_T_num c : is_numchar json_numchars c = num_byte c || (c =? 0)%N.
+Proof.
+  apply eq_true_iff_eq. unfold is_numchar, json_numchars, num_byte. cbn [app existsb].
+  rewrite orb_false_r. repeat rewrite orb_true_iff. rewrite andb_true_iff.
+  repeat rewrite N.eqb_eq. rewrite !N.leb_le. lia.
+Qed.
+
+Lemma repo_T_esc e : assoc e json_escapes = esc_val e.
+Proof.
+  unfold json_escapes, esc_val. cbn [assoc]. rewrite !(N.eqb_sym _ e). reflexivity.
+Qed.
+
+Lemma memcmp_at n : forall b p l lit i m, at_ b p l -> at_ lit i m ->
+  n <= length l -> n <= length m ->
+  memcmp_eq b n p i lit = Ok (bytes_eqb (firstn n l) (firstn n m)).
+Proof.
+  induction n as [|n IH]; intros b p l lit i m Hb Hl Hn Hm; [reflexivity|].
+  destruct l as [|x l]; [cbn in Hn; lia|]. destruct m as [|y m]; [cbn in Hm; lia|].
+  cbn [memcmp_eq firstn bytes_eqb length] in *.
+  rewrite (at_rd _ _ _ _ Hb), (at_rd _ _ _ _ Hl). cbn [bind].
+  rewrite <- (Nat.add_1_r p), <- (Nat.add_1_r i).
+  rewrite (IH b (p + 1) l lit (i + 1) m (at_cons _ _ _ _ Hb) (at_cons _ _ _ _ Hl)) by lia.
+  reflexivity.
+Qed.
+
+Lemma repo_T_lit k b p l : at_ b p (lit_text k ++ l) ->
+  skip_literal json_literals b p = Ok (p + length (lit_text k)).
+Proof.
+  intros Hat. pose proof (at_len _ _ _ Hat) as HL. rewrite app_length in HL.
+  unfold skip_literal, json_literals. cbn [lit_loop].
+  assert (M : forall txt n, n <= length (lit_text k ++ l) -> n <= length (cstr txt) ->
+            memcmp_eq b n p 0 (cstr txt) = Ok (bytes_eqb (firstn n (lit_text k ++ l)) (firstn n (cstr txt)))).
+  { intros txt n H1 H2. exact (memcmp_at n b p _ (cstr txt) 0 (cstr txt) Hat (at_zero _) H1 H2). }
+  destruct k; cbn [lit_text length app] in *.
+  - assert (E : (5 <=? length b - p) = true) by (apply Nat.leb_le; lia). rewrite E.
+    rewrite M by (unfold cstr; cbn [length app]; lia). unfold cstr; cbn [bind firstn bytes_eqb app N.eqb Pos.eqb andb]. exact (at_fwd _ _ 5 _ Hat ltac:(cbn [length]; lia)).
+  - destruct (5 <=? length b - p) eqn:E5.
+    + apply Nat.leb_le in E5. rewrite M by (unfold cstr; cbn [length app]; lia). unfold cstr; cbn [bind firstn bytes_eqb app N.eqb Pos.eqb andb].
+      assert (E : (4 <=? length b - p) = true) by (apply Nat.leb_le; lia). rewrite E.
+      rewrite M by (unfold cstr; cbn [length app]; lia). unfold cstr; cbn [bind firstn bytes_eqb app N.eqb Pos.eqb andb]. exact (at_fwd _ _ 4 _ Hat ltac:(cbn [length]; lia)).
+    + assert (E : (4 <=? length b - p) = true) by (apply Nat.leb_le; lia). rewrite E.
+      rewrite M by (unfold cstr; cbn [length app]; lia). unfold cstr; cbn [bind firstn bytes_eqb app N.eqb Pos.eqb andb]. exact (at_fwd _ _ 4 _ Hat ltac:(cbn [length]; lia)).
+  - assert (E : (4 <=? length b - p) = true) by (apply Nat.leb_le; lia).
+    destruct (5 <=? length b - p) eqn:E5.
+    + apply Nat.leb_le in E5. rewrite M by (unfold cstr; cbn [length app]; lia). unfold cstr; cbn [bind firstn bytes_eqb app N.eqb Pos.eqb andb]. rewrite E.
+      rewrite M by (unfold cstr; cbn [length app]; lia). unfold cstr; cbn [bind firstn bytes_eqb app N.eqb Pos.eqb andb]. rewrite E.
+      rewrite M by (unfold cstr; cbn [length app]; lia). unfold cstr; cbn [bind firstn bytes_eqb app N.eqb Pos.eqb andb]. exact (at_fwd _ _ 4 _ Hat ltac:(cbn [length]; lia)).
+    + rewrite E. rewrite M by (unfold cstr; cbn [length app]; lia). unfold cstr; cbn [bind firstn bytes_eqb app N.eqb Pos.eqb andb]. rewrite E.
+      rewrite M by (unfold cstr; cbn [length app]; lia). unfold cstr; cbn [bind firstn bytes_eqb app N.eqb Pos.eqb andb]. exact (at_fwd _ _ 4 _ Hat ltac:(cbn [length]; lia)).
+Qed.
+
+(* ================= the theorems, for the code as it is now ================= *)
+
+Theorem skip_value_render_at pre v rest :
+  wf v = true -> value_end_ok rest = true ->
+  skip_value_c (pre ++ render v ++ rest) (length pre) = Ok (length pre + length (render v)).
+Proof.
+  intros Hv Hr. unfold skip_value_c.
+  exact (skip_value_at json_numchars json_wsbytes json_literals repo_T_ws repo_T_num repo_T_lit
+           _ _ v rest Hv Hr (at_intro pre _)).
+Qed.
+
+Theorem skip_value_render v rest :
+  wf v = true -> value_end_ok rest = true ->
+  skip_value_c (render v ++ rest) 0 = Ok (length (render v)).
+Proof. intros Hv Hr. exact (skip_value_render_at [] v rest Hv Hr). Qed.
+
+Theorem json_find_correct lead w ms trail key :
+  is_wsl lead = true -> wf (JObj w ms) = true -> no_nul key ->
+  json_find_c (lead ++ render (JObj w ms) ++ trail) key = Ok (find_spec lead (JObj w ms) trail key).
+Proof.
+  intros Hl Hv Hk. unfold json_find_c.
+  exact (json_find_at json_numchars json_wsbytes json_literals json_escapes
+           repo_T_ws repo_T_num repo_T_lit repo_T_esc lead w ms trail key Hl Hv Hk).
+Qed.
